@@ -474,6 +474,10 @@ def gen_number(rng):
         k = rng.choice((1, 2, 3, 7, 10, 100, 2 ** 31, 2 ** 32, 2 ** 52, 2 ** 52 - 1, rng.randint(1, 2 ** 52), 10 ** rng.randint(1, 15)))
         f = math.nextafter(float(k), rng.choice((math.inf, -math.inf)))
         return -f if rng.random() < 0.3 else f
+    if r < 0.045:
+        # integer tokens just outside the 64-bit ranges: doubles, printed with all their digits (no integer fast path for them)
+        return rng.choice((-(2 ** 63) - 1025, -(2 ** 63) - 2048, -9300000000000000000, -9999999999999999999, -(10 ** 19), 2 ** 64, 2 ** 64 + 2048, 2 ** 64 + 4096,
+                           18446744073709552000, 2 * 10 ** 19, -(2 ** 64), 10 ** 20, -(2 ** 63) - rng.randrange(1025, 10 ** 18)))
     if r < 0.06:
         # few digits and an exponent beyond the powers of ten a double holds exactly (10^22)
         return float("%de%d" % (rng.randint(1, 10 ** rng.choice((1, 2, 5, 15))), rng.choice((22, 23, 24, 25, 30, -22, -23, -24, -25, -30)))) * rng.choice((1, -1))
